@@ -29,7 +29,7 @@ func init() {
 			{Name: "dir-histories", Fn: scnC20, Weight: 1},
 		},
 		Rule: "initial directory with 0-12 rotated files audit.log.N (N up to 999, non-contiguous, incl. >= 10 files and two/three-digit suffixes) plus the live file, 0-5 lines each, optional partial tail; " +
-			"then 1-25 operations from {append k complete lines, append a prefix of a line, complete it, rotate (rename chain + create), truncate to zero, append a line longer than the read buffer, an event (write/create/chmod/remove/rename) for another file of the directory incl. rotated siblings audit.log.N / .gz / .bak}, " +
+			"then 1-25 operations from {append k complete lines, append a prefix of a line, complete it, rotate (rename chain + create), truncate to zero, append a line longer than the read buffer, an event (write/create/chmod/remove/rename) for another file of the directory incl. rotated siblings audit.log.N / .gz / .bak, an attribute change (chmod) of the live file}, " +
 			"each followed by its file-system events and a run to quiescence; read-buffer knob {16,64,4096}; a consumer task drains Lines(); " +
 			"non-trivial = at least one rotation or truncation or partial append and at least 2 rotated files; distinct = distinct (history hash, schedule hash)",
 		Quick: 8000, Thorough: 250000,
@@ -386,8 +386,13 @@ func scnC20(rc *RunCtx) {
 			}
 		default: // an event for another file of the directory: an unrelated log, or a rotated sibling
 			// of the live file being compressed, deleted or renamed by the rotation tool
-			name := []string{"/other.log", "/audit.log.1", "/audit.log.2", "/audit.log.1.gz", "/audit.log.bak", "/audit.log.10"}[t.Choose(6, "uname")]
+			name := []string{"/other.log", "/audit.log.1", "/audit.log.2", "/audit.log.1.gz", "/audit.log.bak", "/audit.log.10", "/audit.log"}[t.Choose(7, "uname")]
 			op := []fsnotify.Op{fsnotify.Write, fsnotify.Create, fsnotify.Chmod, fsnotify.Remove, fsnotify.Rename}[t.Choose(5, "uop")]
+			if name == "/audit.log" {
+				// the live file itself: an attribute change only (chmod/chown by the rotation tool or an
+				// administrator), its content and offset are untouched
+				op = fsnotify.Chmod
+			}
 			if op == fsnotify.Remove || op == fsnotify.Rename {
 				delete(mfs.files, dir+name)
 			}
